@@ -20,10 +20,10 @@ THEOREMS = [f"NumbersModel.Props.C03.{t}" for t in (
     "saved_grid_reopens", "wf_doc_step", "cache_key_injective", "memo_transparent")] + [
     # the argument checks of the four structural edits as py2lean regenerates them from document.py on every run
     f"NumbersModel.Props.C03.Src.{t}" for t in ("src_add_row_args", "src_add_column_args", "src_delete_row_args",
-                                                 "src_delete_column_args", "src_edit_refused_early")] + [
+                                                 "src_delete_column_args", "src_edit_refused_early", "src_memo_call", "src_memo_hit")] + [
     f"NumbersModel.Translated.{t}" for t in ("add_row_args_eq_model", "add_column_args_eq_model", "delete_row_args_eq_model",
-                                              "delete_column_args_eq_model")]
-TRANSLATED_GROUPS = ("Edit",)
+                                              "delete_column_args_eq_model", "cache_inner_eq_model")]
+TRANSLATED_GROUPS = ("Edit", "Cache")
 PARTIAL = {
     "memo_transparent": "proved for integer key arguments and pure methods (Model/Cache.lean); that the decorated methods "
     "of model.py are pure between invalidations is exercised by the interleaved multi-table histories, not proved",
@@ -59,7 +59,10 @@ MANIFEST = {
             "(harness/py2lean.py -> Gen/TrEdit.lean); each model operation is proved to be the translated prefix followed by "
             "the rest of the operation (Lemmas/TrEdit.lean), their acceptance domain is stated in closed form over the "
             "translation (Props.C03.Src.src_*_args, src_edit_refused_early), and the translated checks are run against the "
-            "real methods for every count and start in -2..size+2 (trdriver).",
+            "real methods for every count and start in -2..size+2 (trdriver). The memoising wrapper of numbers_cache.py "
+            "(cache.cache_decorator.inner_multi_args, the instance dict threaded as a state variable) is translated as well "
+            "(Gen/TrCache.lean) and proved to return what the model's memoCall returns and to leave the same store content "
+            "(Lemmas/TrCache.lean; Props.C03.Src.src_memo_call, src_memo_hit).",
     "note": "fixes/C03-edit-counts.patch and fixes/C03-negative-coords.patch repair genuine defects found by the check "
             "(out-of-range counts corrupt num_rows/num_cols vs data; write(-1, 0, v) stores a cell that reports row -1).",
     "technique": "Lean 4 proof (loop invariants, induction over histories, refinement to a list-of-lists spec; argument "
@@ -442,7 +445,7 @@ def cache_correspondence(ctx: Ctx):
             req.append("cache key " + " ".join(map(str, a)))
             k = ".".join(str(x) for x in a)
             out.append(("ok " + common.enc_text(k)) if k in t._cache["m"] else "ok <missing>")
-    ctx.correspond("numbers_cache: memo keys, results and miss counts on a real Cacheable", req, out)
+    ctx.correspond("numbers_cache: memo keys, results and miss counts on a real Cacheable", req, out, translated=True)
 
 
 def translated_source_stream(ctx: Ctx):
